@@ -48,7 +48,7 @@ const HOMES: &[Option<&str>] = &[None, Some(""), Some("/home/u"), Some("/"), Som
 const XHOME: &[Option<&str>] = &[None, Some(""), Some("/x/val")];
 const LISTS: &[Option<&str>] = &[None, Some(""), Some("/l1"), Some("/l1:/l2"), Some(":/l1::/l2:")];
 /// lists for the getter cross-product: additionally the root directory as an entry and entries with trailing separators
-const LISTS_G: &[Option<&str>] = &[None, Some(""), Some("/l1"), Some("/l1:/l2"), Some(":/l1::/l2:"), Some("/"), Some("/l1/:/:/l2//"), Some("/l1:/l1::/l1:/l2"), Some("::")];
+const LISTS_G: &[Option<&str>] = &[None, Some(""), Some("/l1"), Some("/l1:/l2"), Some(":/l1::/l2:"), Some("/"), Some("/l1/:/:/l2//"), Some("/l1:/l1::/l1:/l2"), Some("::"), Some("/l1: /l2 :/l3"), Some(" ")];
 const RUNTIME: &[Option<&str>] = &[None, Some("/run/u")];
 
 fn split_list(v: &str) -> Vec<String> {
@@ -305,9 +305,9 @@ fn xdg_env(idx: u64) -> Env {
     set(&mut e, "XDG_DATA_HOME", &XHOME[take(3)]);
     set(&mut e, "XDG_CACHE_HOME", &XHOME[take(3)]);
     set(&mut e, "XDG_STATE_HOME", &XHOME[take(3)]);
-    set(&mut e, "XDG_CONFIG_DIRS", &LISTS_G[take(9)]);
-    set(&mut e, "XDG_DATA_DIRS", &LISTS_G[take(9)]);
-    set(&mut e, "PATH", &LISTS_G[take(9)]);
+    set(&mut e, "XDG_CONFIG_DIRS", &LISTS_G[take(11)]);
+    set(&mut e, "XDG_DATA_DIRS", &LISTS_G[take(11)]);
+    set(&mut e, "PATH", &LISTS_G[take(11)]);
     set(&mut e, "XDG_RUNTIME_DIR", &RUNTIME[take(2)]);
     // bystander variables the statement does not mention must not matter (half of the configurations)
     if splitmix(idx) % 2 == 0 {
@@ -318,10 +318,10 @@ fn xdg_env(idx: u64) -> Env {
     }
     e
 }
-const XDG_SPACE: u64 = 5 * 81 * 729 * 2;
+const XDG_SPACE: u64 = 5 * 81 * 1331 * 2;
 
 pub fn run(c: &Ctx) {
-    c.set_rule("one child process per configuration (env_clear + exactly the generated variables). (a) getters: cross-product HOME{unset,'',value,'/',value with a trailing separator} x XDG_{CONFIG,DATA,CACHE,STATE}_HOME{unset,'',value} x XDG_CONFIG_DIRS/XDG_DATA_DIRS/PATH{unset,'','/l1','/l1:/l2',':/l1::/l2:','/','/l1/:/:/l2//','/l1:/l1::/l1:/l2' (repeated entries are kept),'::' (only separators: the defaults)} x XDG_RUNTIME_DIR{unset,value} = 590490 (half of them with bystander variables TMPDIR, TMP, USER and a decoy name set - they must not matter) configurations (thorough: all; quick: seeded 4000 + corner cases). (b) vfs.config_dir(name): HOME x XDG_CONFIG_HOME {unset,value} x XDG_CONFIG_DIRS{unset,'','/l1','/l1:/l2',':/l1::/l2:'} x every subset of candidate directories containing the file x {flat name, name of three components}, on Memfs (built in the child) and on Stdfs (sandbox on tmpfs). (c) getrids: SUDO_UID x SUDO_GID in 12 values each (incl. ids above 2^31) x 6 (uid,gid) pairs. Oracle: reference functions written from the statement / XDG spec. Non-trivial = configuration with at least one variable set-but-empty or a list with empty segments, or a config_dir case whose first candidate lacks the file; distinct by configuration.");
+    c.set_rule("one child process per configuration (env_clear + exactly the generated variables). (a) getters: cross-product HOME{unset,'',value,'/',value with a trailing separator} x XDG_{CONFIG,DATA,CACHE,STATE}_HOME{unset,'',value} x XDG_CONFIG_DIRS/XDG_DATA_DIRS/PATH{unset,'','/l1','/l1:/l2',':/l1::/l2:','/','/l1/:/:/l2//','/l1:/l1::/l1:/l2' (repeated entries are kept),'::' (only separators: the defaults),'/l1: /l2 :/l3',' ' (blanks belong to the entry: listed verbatim)} x XDG_RUNTIME_DIR{unset,value} = 1078110 (half of them with bystander variables TMPDIR, TMP, USER and a decoy name set - they must not matter) configurations (thorough: all; quick: seeded 4000 + corner cases). (b) vfs.config_dir(name): HOME x XDG_CONFIG_HOME {unset,value} x XDG_CONFIG_DIRS{unset,'','/l1','/l1:/l2',':/l1::/l2:'} x every subset of candidate directories containing the file x {flat name, name of three components}, on Memfs (built in the child) and on Stdfs (sandbox on tmpfs). (c) getrids: SUDO_UID x SUDO_GID in 12 values each (incl. ids above 2^31) x 6 (uid,gid) pairs. Oracle: reference functions written from the statement / XDG spec. Non-trivial = configuration with at least one variable set-but-empty or a list with empty segments, or a config_dir case whose first candidate lacks the file; distinct by configuration.");
     c.assume("set-but-empty *_HOME / XDG_RUNTIME_DIR: value verbatim or spec default both admitted; HOME='' defaults: relative or rooted spelling admitted; PATH unset: totality only");
     // (a) getters
     let n_quick = 4000u64;
